@@ -30,8 +30,12 @@ fn explore_poll(cfg: &Cfg, rep: &mut Report, chans: &[u8], values: &[u8], timeou
         rep.inconclusive(format!("{} explorer (channels {:?}, timeout {}) did not reach a fixpoint within {} states", tag, chans, timeout, max_states));
     }
     let tname = if timeout == T_INF { "inf".to_string() } else { format!("{}ns", timeout) };
+    rep.count("explorer_runs", 1);
+    if rep.notes.len() > 14 {
+        return;
+    }
     rep.notes.insert(
-        format!("explorer_{}_ch{:?}_v{}_t{}", tag, chans, values.len(), tname),
+        format!("explorer_{}_ch{:?}_values{:?}_t{}", tag, chans, values, tname),
         json!({"states":st.states,"transitions":st.transitions,"depth":st.depth,"fixpoint_reached":st.fixpoint,"alphabet":alpha.len(),"tick_ns":TICK}),
     );
 }
@@ -115,6 +119,16 @@ pub fn run_c14(cfg: &Cfg, rep: &mut Report) {
             }
         } else {
             explore_poll(cfg, rep, &[2, 13], &v2[..1], 0, 300_000, "c14-two-channel");
+        }
+    }
+    if !cfg.as_c18 {
+        // rotating abstract values / channels
+        for (i, p) in crate::util::value_pairs(cfg, 0xC14, 2).iter().enumerate().skip(1) {
+            let c = crate::util::rotating_channel(cfg, i);
+            let ts: &[u64] = if cfg.thorough && cfg.release { &[0, T2, T_INF] } else { &[T2] };
+            for &t in ts {
+                explore_poll(cfg, rep, &[c], &p[..], t, 2_000_000, "c14-rotating");
+            }
         }
     }
     let total = cfg.size(3_000, 10_000_000, 200_000_000);
@@ -303,6 +317,22 @@ pub fn run_c13(cfg: &Cfg, rep: &mut Report) {
             format!("explorer_c13_t{}", tname),
             json!({"states":st.states,"transitions":st.transitions,"depth":st.depth,"fixpoint_reached":st.fixpoint,"alphabet":alpha.len()}),
         );
+    }
+    if !cfg.as_c18 {
+        for (i, p) in crate::util::value_pairs(cfg, 0xC13, 2).iter().enumerate().skip(1) {
+            let c = crate::util::rotating_channel(cfg, i);
+            let alpha = pn_alphabet(&[c], &p[..], true, Some(TICK));
+            let init = PollTemplates { mon: PollMon::new(T2), chan: c };
+            let (st, _) = explore(cfg, init, &alpha, 2_000_000, rep, false);
+            rep.states += st.states;
+            rep.transitions += st.transitions;
+            rep.evaluations += st.transitions;
+            rep.distinct_nontrivial += st.states;
+            rep.count("rotating_explorer_runs", 1);
+            if !st.fixpoint {
+                rep.inconclusive("C13 rotating explorer did not reach a fixpoint");
+            }
+        }
     }
     if cfg.thorough && cfg.release && !cfg.as_c18 {
         // a second timeout so that ages 0,1,2,3 ticks are distinguishable; 3 values
@@ -886,16 +916,20 @@ pub fn run_c12(cfg: &Cfg, rep: &mut Report) {
     });
     // encoder corollary from every explorer-reachable prior state
     if !cfg.as_c18 {
-        for &t in &[0u64, T2] {
-            let alpha = pn_alphabet(&[6], &[0, 1], true, Some(TICK));
+        let mut setups: Vec<(u64, u8, [u8; 2])> = vec![(0, 6, [0, 1]), (T2, 6, [0, 1])];
+        for (i, p) in crate::util::value_pairs(cfg, 0xC12, 2).iter().enumerate().skip(1) {
+            setups.push((T2, crate::util::rotating_channel(cfg, i), *p));
+        }
+        for (t, chan, vals) in setups {
+            let alpha = pn_alphabet(&[chan], &vals[..], true, Some(TICK));
             let mut mon = PollMon::new(t);
             mon.p5 = false;
-            let init = PollCorollary { mon, chan: 6, seed: cfg.seed };
+            let init = PollCorollary { mon, chan, seed: cfg.seed };
             let (st, _) = explore(cfg, init, &alpha, 2_000_000, rep, false);
             rep.states += st.states;
             rep.transitions += st.transitions;
             rep.distinct_nontrivial += st.states;
-            rep.notes.insert(format!("corollary_explorer_t{}", t), json!({"states":st.states,"transitions":st.transitions,"depth":st.depth,"fixpoint_reached":st.fixpoint}));
+            rep.notes.insert(format!("corollary_explorer_t{}_ch{}_values{:?}", t, chan, vals), json!({"states":st.states,"transitions":st.transitions,"depth":st.depth,"fixpoint_reached":st.fixpoint}));
             if !st.fixpoint {
                 rep.inconclusive("C12 corollary explorer did not reach a fixpoint");
             }
